@@ -151,7 +151,15 @@ func runC09(args []string) error {
 	caseNo := 0
 	oneCase := func(path int, op string, cst, n, inOff, outOff int, layout string) error {
 		var gin, gout *gbuf
-		if layout == "adj" || layout == "adjrev" {
+		if layout == "inplace" {
+			// in and out are the SAME slice (Matrix.scaleRow multiplies a row in place): out[i] = c * (old in[i])
+			g1, err := allocGuarded(n, "end", inOff&^1)
+			if err != nil {
+				return err
+			}
+			defer g1.free()
+			gin, gout = g1, g1
+		} else if layout == "adj" || layout == "adjrev" {
 			// the two buffers TOUCH: consecutive halves of one allocation (rows of a flat matrix, the two halves of a
 			// work buffer) - disjoint, so neither may be treated as the other's alias
 			g2, err := allocGuarded(2*n, "end", inOff&^1)
@@ -243,7 +251,7 @@ func runC09(args []string) error {
 			win, wold, wout = a, b, cc
 		}
 		ev := tracelog.M{"ev": "kern", "path": pathNames[path], "op": op, "c": cst, "len": n, "inoff": inOff, "outoff": outOff, "layout": layout,
-			"fault": fault, "faultmsg": msg, "canary_ok": gin.canariesOK() && gout.canariesOK(), "in_unchanged": bytes.Equal(inCopy, gin.data),
+			"fault": fault, "faultmsg": msg, "canary_ok": gin.canariesOK() && gout.canariesOK(), "in_unchanged": layout == "inplace" || bytes.Equal(inCopy, gin.data),
 			"in": win, "old": wold, "out": wout, "rest_ok": restOK, "procs": runtime.GOMAXPROCS(0)}
 		lg.Emit(ev)
 		return nil
@@ -318,6 +326,17 @@ func runC09(args []string) error {
 						continue
 					}
 					if err := oneCase(path, op, []int{3, 0xFFFF, 1 + rng.Intn(65535)}[(n/2+li)%3], n, 2*((n/2)%8), 0, layout); err != nil {
+						return err
+					}
+				}
+			}
+			if op == "mul" {
+				// in place, at every length (the way the matrix code scales a row)
+				for _, n := range append(append([]int{}, lens...), big...) {
+					if n == 0 {
+						continue
+					}
+					if err := oneCase(path, op, []int{2, 0xFFFF, 1 + rng.Intn(65535)}[(n/2)%3], n, 2*((n/2)%8), 0, "inplace"); err != nil {
 						return err
 					}
 				}
